@@ -22,8 +22,9 @@ group("G-IDCONV", "automerge", "am_root.rs", "",
              "<ExId as Display>::fmt -> writes nothing (the InvalidObjId message; formatting a symbolic u64 cost 570 of 650 s)"],
       assumptions=["document = Automerge::new() with the sorted actor table [0x33, 0x55] (exid harness) resp. [0x33] (cursor harness) pushed in directly: the conversion reads only the actor table"])
 H("G-IDCONV", "idconv_exid_to_opid_total", "C37 C15 C30 C19", "ANY u64 counter, ANY usize actor-index hint, id naming either actor of a 2-actor table or an absent actor; unwind 18",
-  "Ok(counter, index of the id's actor) through the hint or the lookup fallback; Err for an unknown actor (never another actor's object) or a counter above u32::MAX; never panics", timeout=900)
-H("G-IDCONV", "idconv_op_cursor_to_opid_total", "C37 C15", "any u64 counter, either move mode; unwind 18", "as above for cursors", timeout=900)
+  "Ok(counter, index of the id's actor) through the hint or the lookup fallback; Err for an unknown actor (never another actor's object) or a counter above u32::MAX; never panics", timeout=900,
+  native_grid="replay_grid_idconv_exid_to_opid")
+H("G-IDCONV", "idconv_op_cursor_to_opid_total", "C37 C15", "any u64 counter, either move mode; unwind 18", "as above for cursors", timeout=900, native_grid="replay_grid_idconv_op_cursor_to_opid")
 
 group("G-EXID", "automerge", "am_exid.rs", "exid",
       ["exid::ExId::to_bytes", "types::ActorId::{from(&[u8]),to_bytes}", "leb128::write::unsigned (dependency, from source)",
